@@ -77,6 +77,42 @@ def gen_reject(g):
         if pt is None:
             return None
         rule = rng.choice(rules)
+        if rule == "agg_in_on_pooled":
+            # choose the shared aggregate first, then a table in which it is in scope; afterwards
+            # the same expression object is used again (a rejected call must not have changed it)
+            from sim import exprs as X
+
+            cands = [e for e, rec in m.expr_recs.items() if rec.get("e") == "agg" and all("r" in a for a in X.refargs_of(rec, m.expr_recs))]
+            rng.shuffle(cands)
+            found = None
+            for e in cands:
+                toks = [m.ref_toks.get(a["r"]) for a in X.refargs_of(m.expr_recs[e], m.expr_recs)]
+                tabs = [p for p in (m.tables[t] for t in g.tables()) if all(t in p.m.scope for t in toks) and len(p.m.visible) >= 2 and not p.m.grouping]
+                if tabs:
+                    found = (e, rng.choice(tabs))
+                    break
+            if found is None:
+                continue
+            pt = found[1]
+            eid = found[0]
+
+            def followup(i, eid=eid, tid=pt.id):
+                p2 = m.tables.get(tid)
+                if p2 is None or eid not in m.exprs:
+                    return None
+                m.note("shared_aggregate_reused_after_rejected_join")
+                gb = [n for n, t in p2.m.visible if T[t].mod]
+                if gb and rng.random() < 0.6:
+                    def grouped_mutate(j, gtid=f"t{i}"):
+                        if gtid not in m.tables:
+                            return None
+                        return {"op": "mutate", "t": gtid, "cols": [[g.fresh_name(), {"e": "pool", "x": eid}]]}
+
+                    g.plan.insert(0, grouped_mutate)
+                    return {"op": "group_by", "t": tid, "cols": [{"c": rng.choice(gb)}], "add": False}
+                return {"op": "mutate", "t": tid, "cols": [[g.fresh_name(), {"e": "pool", "x": eid}]]}
+
+            g.plan.append(followup)
         classes, verbs = RULES[rule]
         verb = rng.choice(verbs)
         st = {"op": "reject", "t": pt.id, "rule": rule, "verb": verb, "nest": rng.choice(NESTS), "via": rng.choice(["C", "own", "ref"])}
@@ -100,12 +136,7 @@ def gen_reject(g):
                 continue
             st["ref"] = rng.choice(cands)
         if rule == "agg_in_on_pooled":
-            from sim import exprs as X
-
-            cands = [e for e, rec in m.expr_recs.items() if X.expr_ftype(rec, m.expr_recs) == "agg" and rec.get("e") == "agg" and all("r" in a for a in X.refargs_of(rec, m.expr_recs))]
-            if not cands:
-                continue
-            st["x"] = rng.choice(cands)
+            st["x"] = eid
         if verb in ("join", "join_on", "union"):
             def overlap(p):
                 return bool((p.m.origins & pt.m.origins) or (set(p.m.scope) & set(pt.m.scope)))
